@@ -198,7 +198,7 @@ CHECKS['C07'] = dict(
 
 NOT_APPLICABLE = {
     'C10': 'invariance under re-segmentation is an algebraic property of carried partial-block state inside asm/C '
-           'arithmetic; no clause of it is visible in code shape',
+           'arithmetic; no clause of it is visible in code shape Each process-wide object is written at one site of its writer (no clear-then-refill transient, G9); no library code decides on imb_get_errno() (G6).',
 }
 UNDER_CONSTRUCTION = 'check not yet built in this round (planned in DESIGN.md §3); not claimed'
 
@@ -207,9 +207,9 @@ UNDER_CONSTRUCTION = 'check not yet built in this round (planned in DESIGN.md §
 EXTRA = {
     'C01': ' Further structural clauses (DESIGN 3a): no C cipher routine reads through output-derived pointers in more places than the reference tree (O1); '
            'copies of one routine within a file agree (X5); field-by-field record copies are index/field consistent (X4); C functions named for a key size / '
-           'direction call only routines of that key size / direction (K1).',
-    'C02': ' Further clauses (DESIGN 3a): wrapper-constant matrix of the per-architecture hash entry points (X3), copy siblings (X5), field copies (X4).',
-    'C03': ' Further clause (DESIGN 3a): key-size / direction tokens of C wrappers and manager slots agree with their callers (K1).',
+           'direction call only routines of that key size / direction (K1). Element-insert ladders that assemble IV / nonce vectors keep the index/offset relation of their neighbours (N6); no computed vector value is stored twice unchanged to adjacent places (W6).',
+    'C02': ' Further clauses (DESIGN 3a): wrapper-constant matrix of the per-architecture hash entry points (X3), copy siblings (X5), field copies (X4). Insert ladders (N6); no computed vector value is stored twice unchanged to adjacent places - the second part of a split digest / tag store comes from another value (W6).',
+    'C03': ' Further clause (DESIGN 3a): key-size / direction tokens of C wrappers and manager slots agree with their callers (K1). Insert ladders of the CCM / GCM / ChaCha20-Poly1305 units (N6, decides the nonce byte placement of CCM block B0); split stores (W6).',
     'C04': ' Further clauses (DESIGN 3a): lane association in 262 assembled multi-buffer routines - a vector stored through the pointer of lane m holds data of '
            'lane m only, followed through the transposition networks (unpack / shuffle / insert / extract modelled exactly on 32-bit slots, everything else '
            'element-wise; unknown values never reported), and a per-lane pointer is written back into the array element it came from (V1/V2; decides K16).',
@@ -218,9 +218,9 @@ EXTRA = {
     'C06': ' Further clauses (DESIGN 3a): a stage handler is looked up from the suite id of the very job it is applied to, in the same expression (T7); '
            'assembly ORs single stage bits into job->status (J2); the burst guards, stale suite id included, are those of the reference tree (T9).',
     'C07': ' A second structural clause of in-place == out-of-place (DESIGN 3a, O1): no C routine reads its data through output-derived pointers in more '
-           'places than on the reference tree; C digest writers copy the word count of the selected SHA variant (P5).',
+           'places than on the reference tree; C digest writers copy the word count of the selected SHA variant (P5). Assembly tail copies of the last K bytes of a buffer are admitted only from length >= K (W4).',
     'C08': ' Further clauses (DESIGN 3a): per-architecture versions of one function agree (X6); wrapper constants fit the file x algorithm matrix (X3); each '
-           'variant records its own architecture in used_arch.',
+           'variant records its own architecture in used_arch. One IMB_MGR slot is bound in all variants to the same routine up to instruction-set tokens (R1s); an architecture front-end selects a type-N variant only after testing that variant\'s whole feature mask (R3 select); insert ladders of all units (N6).',
     'C09': ' Further clauses (DESIGN 3a): job->src is used with its start offset by every entry point (O2), output-read discipline (O1), field copies (X4), '
            'handler lookup per job (T7).',
     'C11': ' Further clauses (DESIGN 3a): the 3GPP IV generators place BEARER / DIRECTION at the bit positions of the specifications and byte-swap COUNT / FRESH '
@@ -233,6 +233,7 @@ EXTRA = {
            'resets the error code before dispatching to a type init (I7); the per-architecture init functions agree (X6).',
     'C16': ' Further clause (DESIGN 3a): each variant records its own architecture in used_arch (P5).',
     'C20': ' Further clause (DESIGN 3a): each row of a self-test vector table carries one size token and a loop over one table reads no other (F7).',
+    'C12': ' Further clause (DESIGN 3a): a synchronous burst helper named for a direction validates its jobs with that direction (V11).',
     'C17': ' Further clauses (DESIGN 3a): the per-manager half of the error code never depends on the process-wide half (G7); the session counter is advanced '
            'with a LOCKed read-modify-write (G8).',
 }
